@@ -283,6 +283,33 @@ fn two_frame_histories(ctx: &Ctx, m128: bool) {
     );
 }
 
+/// The very first ULA write of a freshly created machine, for each of the 8 colours (a cached
+/// "current colour" must not swallow a write that happens to equal its initial value): the next
+/// complete frame is all that colour and border_color() reports it.
+fn first_write_on_fresh_machine(ctx: &Ctx) {
+    for m128 in [false, true] {
+        for colour in 0..8u8 {
+            let mut e = machine(m128);
+            let (w0, w1) = out_port_at(&mut e, 300, colour, 0x00FE);
+            let mut r = RegsView::default();
+            r.pc = IDLE;
+            r.sp = 0xBF00;
+            rig::set_regs(e.verif_cpu(), &r);
+            run_to_frame_end(&mut e, m128);
+            let _ = (w0, w1);
+            run_to_frame_end(&mut e, m128);
+            ctx.add_eval(1);
+            let case = json!({"kind":"fresh-first-write","m128":m128,"colour":colour});
+            let got: u8 = e.border_color().into();
+            if got != colour {
+                ctx.violation("C09:fresh-first-write:border_color", &format!("first ULA write of a fresh machine with colour {}: border_color() reports {}", colour, got), case);
+                continue;
+            }
+            compare(ctx, &e, m128, colour, &[], case, "fresh-first-write");
+        }
+    }
+}
+
 fn snapshot_border(ctx: &Ctx) {
     for m128 in [false, true] {
         for b in 0..8u8 {
@@ -346,6 +373,7 @@ pub fn run(tier: Tier, seed: u64, replay: Option<String>) -> i32 {
             "single" => single_writes(&ctx, m128, &[c["t"].as_u64().unwrap() as usize]),
             "pair" => pair_writes(&ctx, m128, 8),
             "two-frame" => two_frame_histories(&ctx, m128),
+            "fresh-first-write" => first_write_on_fresh_machine(&ctx),
             _ => snapshot_border(&ctx),
         }
         let n = ctx.violation_classes();
@@ -360,6 +388,7 @@ pub fn run(tier: Tier, seed: u64, replay: Option<String>) -> i32 {
         two_frame_histories(&ctx, m128);
     }
     snapshot_border(&ctx);
+    first_write_on_fresh_machine(&ctx);
     ctx.sample(json!({"write":"OUT (FE),2 with the I/O cycle at T=20000..20004","judged":"every border pixel whose beam time is more than 8 T away from the cycle"}));
     ctx.note("not_judged", json!("pixels within 16 pixels (8 T) of the I/O cycle of a write; the canvas area of the border buffer"));
     ctx.finish(
